@@ -619,3 +619,82 @@ Theorem C06_source_parser_select_next_plate_params :
   Cli.params_kv SrcParser_select_next_plate.src_parser_select_next_plate.
 Proof. exact C18SourceParser_select_next_plate.parser_select_next_plate_params. Qed.
 Print Assumptions C06_source_parser_select_next_plate_params.
+
+(* ---- gap review G6.1: scorers that are NOT a function of the plate, chunks repeated ----
+   RandomScorer (an anchored file) or a DBAL scorer that sub-samples triples answer differently at every call: with a chunk
+   file repeated in the combine order one plate carries two different scores in the combined holder.  [pscorer_t]: the
+   scorer of the call at position pos of the combine order; [pipeline_pos] = pipeline with the call at position pos made by
+   scorer pos (for a constant family it IS pipeline).  The selection clause in that generality: the pipeline does not raise;
+   the plate returned is a candidate, allowed by the policy, and the score SOME call stored for it is <= the score ANY call
+   stored for ANY allowed plate (so a change that keeps only the last score of a plate before selecting is refuted);
+   None only if nothing is allowed; and every allowed plate is scored by at least one call. *)
+From Batchie Require Proofs.C06AnyScorer.
+Theorem C06_select_sound_any_scorer : forall (scorer : Scores.pscorer_t) (policy : option Scores.policy_t) (s : Scores.screen)
+    (batch : list Z) (n : Z) (order : list Z),
+  (forall f, policy = Some f -> forall b c, incl (f b c) c) ->
+  (1 <= n)%Z ->
+  (batch = [] \/ exists b, In b batch /\ In b (map Scores.r_plate s)) ->
+  (forall k, (0 <= k < n)%Z -> In k order) -> (forall k, In k order -> (0 <= k < n)%Z) ->
+  exists r, Scores.pipeline_pos scorer policy s batch n order = Ok r /\
+    match r with
+    | None => Scores.eligible_plates policy s batch = []
+    | Some pid =>
+        (In pid (map Scores.r_plate s) /\ (exists r, In r s /\ Scores.r_plate r = pid /\ Scores.r_obs r = false) /\ ~ In pid batch) /\
+        In pid (map Scores.p_id (Scores.eligible_plates policy s batch)) /\
+        exists pos k ps,
+          nth_error order pos = Some k /\ Scores.score_chunk s batch n k = Ok ps
+          /\ In (pid, Scores.rows_for s batch (Scores.get_plate s pid)) ps /\
+          forall q pos' k' ps', In q (Scores.eligible_plates policy s batch) -> nth_error order pos' = Some k' ->
+            Scores.score_chunk s batch n k' = Ok ps' -> In (Scores.p_id q, Scores.rows_for s batch q) ps' ->
+            (scorer pos pid (Scores.rows_for s batch (Scores.get_plate s pid)) <= scorer pos' (Scores.p_id q) (Scores.rows_for s batch q))%Z
+    end.
+Proof. exact C06AnyScorer.select_sound_pos_rows. Qed.
+Print Assumptions C06_select_sound_any_scorer.
+
+Theorem C06_any_scorer_allowed_is_scored : forall (policy : option Scores.policy_t) (s : Scores.screen) (batch : list Z) (n : Z) (order : list Z),
+  (forall f, policy = Some f -> forall b c, incl (f b c) c) ->
+  (1 <= n)%Z ->
+  (batch = [] \/ exists b, In b batch /\ In b (map Scores.r_plate s)) ->
+  (forall k, (0 <= k < n)%Z -> In k order) -> (forall k, In k order -> (0 <= k < n)%Z) ->
+  forall q, In q (Scores.eligible_plates policy s batch) ->
+  exists pos k ps, nth_error order pos = Some k /\ Scores.score_chunk s batch n k = Ok ps /\ In (Scores.p_id q, Scores.rows_for s batch q) ps.
+Proof. exact C06AnyScorer.allowed_is_scored_pos_rows. Qed.
+Print Assumptions C06_any_scorer_allowed_is_scored.
+
+Theorem C06_pipeline_pos_constant : forall (scorer : Scores.scorer_t) policy s batch n order,
+  Scores.pipeline_pos (fun _ => scorer) policy s batch n order = Scores.pipeline scorer policy s batch n order.
+Proof. exact C06AnyScorer.pipeline_pos_constant. Qed.
+Print Assumptions C06_pipeline_pos_constant.
+
+(* ---- gap review G6.3: the three conditioning primitives of the score_chunk link are theorems ----
+   C06_SCORE_CHUNK gives `ScreenSubset.concat(l)`, `a.combine(b)` and `filter_dataset_to_unique_treatments(x)` the meanings
+   Scores.subset_concat, Scores.subset_union and Scores.uniq_first [] - the whole clause "scored on the union of its own and the
+   batch plates' experiments reduced to one experiment per distinct condition" rests on them.  The three helpers are translated
+   themselves (Generated/SrcViews.v, Generated/SrcPlates.v; equal to Model/Views.v by Props/C14.v); read through the
+   representation [sc_rows] / [sc_subset] of the helper links above, each translation IS the meaning the primitive was given,
+   and so is their composition as score_chunk makes it.  A condition = (sample id, treatment ids in column order) on both sides. *)
+From Batchie Require Proofs.C06SourceBridge.
+Theorem C06_model_is_source_conditioning_helpers :
+  (forall a b c : view, view_ok a -> view_ok b -> v_parent b = v_parent a -> src_view_combine a b = Ok c ->
+     sc_subset c = Scores.subset_union (sc_rows (v_parent a)) (sc_subset a) (sc_subset b)) /\
+  (forall (p : Screen.screen) (vs : list view) (c : view),
+     Forall (fun v => v_parent v = p /\ view_ok v) vs -> src_view_concat vs = Ok c ->
+     Scores.subset_concat (sc_rows p) (map sc_subset vs) = Ok (sc_subset c)) /\
+  (forall v v' : view, view_ok v -> screen_wf (v_parent v) -> src_filter_unique_view v = Ok v' ->
+     sc_subset v' = Scores.uniq_first [] (sc_subset v)).
+Proof.
+  exact (conj C06SourceBridge.src_combine_is_subset_union
+          (conj C06SourceBridge.src_concat_is_subset_concat C06SourceBridge.src_filter_unique_is_uniq_first)).
+Qed.
+Print Assumptions C06_model_is_source_conditioning_helpers.
+
+(* composed as score_chunk composes them: filter_dataset_to_unique_treatments(plate.combine(ScreenSubset.concat(batch plates))) *)
+Theorem C06_model_is_source_conditioning :
+  forall (p : Screen.screen) (plate : view) (batch_plates : list view) (u c f : view),
+  screen_wf p -> v_parent plate = p -> view_ok plate ->
+  Forall (fun v => v_parent v = p /\ view_ok v) batch_plates ->
+  src_view_concat batch_plates = Ok u -> src_view_combine plate u = Ok c -> src_filter_unique_view c = Ok f ->
+  exists su, Scores.subset_concat (sc_rows p) (map sc_subset batch_plates) = Ok su /\
+    sc_subset f = Scores.uniq_first [] (Scores.subset_union (sc_rows p) (sc_subset plate) su).
+Proof. exact C06SourceBridge.src_conditioning_is_scores. Qed.
+Print Assumptions C06_model_is_source_conditioning.
